@@ -263,6 +263,47 @@ async fn dual_stack_behaviour(rep: &mut Report) {
     }
 }
 
+/// The same address-family contract after `reload_config(cfg, rebind = true)`: the socket the
+/// endpoint rebinds to honours the new bind configuration exactly as a fresh endpoint would.
+async fn dual_stack_after_rebind(rep: &mut Report) {
+    let any6 = SocketAddrV6::new(Ipv6Addr::UNSPECIFIED, 0, 0, 0);
+    let cases: Vec<(Box<dyn Fn() -> ServerConfig>, &str, bool)> = vec![
+        (Box::new(|| ServerConfig::builder().with_bind_config(IpBindConfig::InAddrAnyDual, 0).with_identity(ends::identity()).build()), "InAddrAnyDual", true),
+        (Box::new(|| ServerConfig::builder().with_bind_config(IpBindConfig::InAddrAnyV6, 0).with_identity(ends::identity()).build()), "InAddrAnyV6", false),
+        (Box::new(|| ServerConfig::builder().with_bind_config(IpBindConfig::InAddrAnyV4, 0).with_identity(ends::identity()).build()), "InAddrAnyV4", true),
+        (Box::new(move || ServerConfig::builder().with_bind_address_v6(any6, Ipv6DualStackConfig::Deny).with_identity(ends::identity()).build()), "[::]+Deny", false),
+        (Box::new(move || ServerConfig::builder().with_bind_address_v6(any6, Ipv6DualStackConfig::Allow).with_identity(ends::identity()).build()), "[::]+Allow", true),
+    ];
+    for (mk, name, want_v4) in cases {
+        rep.eval(format!("dual-stack-after-rebind|{name}"));
+        let server = Endpoint::server(ServerConfig::builder().with_bind_config(IpBindConfig::LocalV4, 0).with_identity(ends::identity()).build()).expect("server");
+        let port0 = server.local_addr().unwrap().port();
+        if let Err(e) = server.reload_config(mk(), true) {
+            rep.inconclusive(format!("reload_config({name}, rebind): {e}"));
+            continue;
+        }
+        let local = server.local_addr().unwrap();
+        if local.port() == port0 && local.is_ipv4() && name != "InAddrAnyV4" {
+            rep.violation("C20|reload|not-rebound", format!("after reload_config({name}, rebind=true) the endpoint still reports {local}"), J::s(name));
+            continue;
+        }
+        let client = Endpoint::client(ClientConfig::builder().with_bind_config(IpBindConfig::LocalV4).with_no_cert_validation().build()).expect("client");
+        let srv = async {
+            if let Waited::Done(Ok(r)) = within(Duration::from_secs(2), ends::accept_request(&server)).await {
+                let c = r.accept().await;
+                tokio::time::sleep(ms(200)).await;
+                drop(c);
+            }
+        };
+        let cli = within(Duration::from_secs(2), client.connect(format!("https://127.0.0.1:{}/", local.port())));
+        let (_, r) = tokio::join!(srv, cli);
+        let reached = matches!(r, Waited::Done(Ok(_)));
+        if reached != want_v4 {
+            rep.violation(format!("C20|dual-stack-after-rebind|{name}"), format!("after reload_config(rebind=true) an IPv4 client {} the {name} endpoint (local address {local})", if reached { "reached" } else { "could not reach" }), J::obj([("config", J::s(name))]));
+        }
+    }
+}
+
 // ------------------------------------------------------------------ (3) ALPN
 
 #[derive(Debug)]
@@ -430,7 +471,10 @@ fn transport_builder_histories(rep: &mut Report, seed: u64, n: u64) {
         let mut want_ka = debug_field(&base, "keep_alive_interval").unwrap_or_default();
         let mut want_mig = debug_field(&base, "migration").unwrap_or_default();
         if custom && (want_idle != "Some(9000)" || want_ka != "Some(7s)") {
-            return rep.inconclusive(format!("custom transport presets not visible in Debug output: idle {want_idle}, keep-alive {want_ka}"));
+            // the caller's transport configuration is the configuration: nothing may rewrite it
+            // unless the matching builder setter is called
+            rep.violation("C20|custom-transport|preset-lost", format!("a custom transport with max_idle_timeout 9 s and keep_alive_interval 7 s is built (no setter called) with idle {want_idle}, keep-alive {want_ka}"), J::s(if server { "server" } else { "client" }));
+            continue;
         }
         let calls: Vec<Call> = (0..rng.usize(1, 6))
             .map(|_| match rng.below(3) {
@@ -759,6 +803,7 @@ pub fn run(args: &Args) -> Report {
     let rt = crate::runtime(true, 4);
     rt.block_on(async {
         dual_stack_behaviour(&mut rep).await;
+        dual_stack_after_rebind(&mut rep).await;
         alpn_cases(&mut rep).await;
         let reps = if args.thorough { 5 } else { 1 };
         for _ in 0..reps {
